@@ -418,6 +418,15 @@ def check_cfg(ctx, fx, cfg):
                 short = fw[-1].split("::")[-1]
         inst = "%s@%s" % (short, cfg)
         n = nfa.build(ctx.body(fx, f), A, fx, depth=2)  # helpers that are lent the locked table run inside the critical section
+        # a second view of the same code: the automaton of the body with the private helpers inlined (what a helper that was lent the
+        # lock itself answers — `self.register_in(&REGISTRY).await` — is then the operation's own answer). Both views contain every
+        # path of the operation; a monitor that accepts either of them accepts the operation
+        n_inl = [None]
+
+        def inl_view():
+            if n_inl[0] is None:
+                n_inl[0] = nfa.build(inline.body(ctx, fx, f, inline.not_public), A, fx, depth=2)
+            return n_inl[0]
         writes = len(nfa.edges_labelled(n, "call:mapinsert")) + len(nfa.edges_labelled(n, "call:mapremove")) > 0
         spawns = len(nfa.edges_labelled(n, "call:spawn")) > 0
         viols, ps = nfa.check(n, LockScope(writes, spawns))
@@ -426,7 +435,9 @@ def check_cfg(ctx, fx, cfg):
             ctx.viol("R08.2", inst, v["msg"], fn=f["def"], site=f["loc"], trace=v["trace"])
         acqs = [t for _, t in b.normal_calls() if is_acquire(t)]
         if not viols:
-            ctx.require(len(acqs) == 1, "R08.2", inst, "expected exactly one lock acquisition site, found %d" % len(acqs), fn=f["def"], site=f["loc"], detail={"acquire": [t["callee"].split("::")[-1] for t in acqs], "map_ops": [t["callee"].split("::")[-1] for _, t in b.normal_calls() if is_mapop(t)]})
+            # (a try-acquire in front of the waiting one is one acquisition on every path: the monitor above has checked that)
+            waiting = [t for t in acqs if not (acquire_kind(t) or "").startswith("try_")]
+            ctx.require(len(acqs) == 1 or (len(waiting) == 1 and len(acqs) == 2), "R08.2", inst, "expected exactly one lock acquisition site, found %d" % len(acqs), fn=f["def"], site=f["loc"], detail={"acquire": [t["callee"].split("::")[-1] for t in acqs], "map_ops": [t["callee"].split("::")[-1] for _, t in b.normal_calls() if is_mapop(t)]})
         for t in acqs:
             # it is the REGISTRY that is locked
             rs = b.origins(t["args"][0]) if t["args"] else set()
@@ -442,6 +453,9 @@ def check_cfg(ctx, fx, cfg):
         for _, t in b.normal_calls():
             if is_mapop(t):
                 rs = roots(b, t["args"][0])
+                # (`REGISTRY.try_read().map(RegistryView)`: the constructor of a crate-local newtype used as a function value
+                # wraps the guard, it is not a source of the table)
+                rs = {r for r in rs if not (r.kind == "const" and r.site in fx.adts)}
                 if is_entry_obj_op(t):
                     # the slot came from `<guarded map>.entry(key)`: judged by where that map came from
                     rs2 = set()
@@ -504,6 +518,11 @@ def check_cfg(ctx, fx, cfg):
         if short == "register":
             viols, ps = nfa.check(n, RegisterSpec())
             ctx.count_nfa({}, ps)
+            if viols:
+                v2_, ps2_ = nfa.check(inl_view(), RegisterSpec())
+                ctx.count_nfa({}, ps2_)
+                if not v2_:
+                    viols = []
             for v in viols:
                 ctx.viol("R08.3", inst, v["msg"], fn=f["def"], site=f["loc"], trace=v["trace"])
             if not viols:
@@ -704,9 +723,10 @@ def check_returns_map_result(ctx, fx, f, b, inst, op, tuple_field=None):
     """the returned previous entry is what the map operation returned"""
     good = False
     cands = []
+    rets = b.return_aliases()  # (the return place, and — with a helper inlined — the local its answer is handed back through)
     for bi, blk in enumerate(b.blocks):
         for st in blk["s"]:
-            if st["k"] == "assign" and st["p"] == [0]:
+            if st["k"] == "assign" and len(st["p"]) == 1 and st["p"][0] in rets:
                 r = st["r"]
                 if r["k"] == "agg" and r.get("variant") == "Ok":
                     # Ok((self, replaced))
